@@ -72,6 +72,18 @@ def _check_that_inner_array_dimensions_are_constant(type_ir, source_file_name, e
                     )
                 ]
             )
+        elif ir_util.constant_value(type_ir.element_count) < 1:
+            # An inner dimension of zero (or less) would make the elements of the
+            # enclosing array zero-sized.
+            errors.append(
+                [
+                    error.error(
+                        source_file_name,
+                        type_ir.element_count.source_location,
+                        "Inner array dimensions must be positive.",
+                    )
+                ]
+            )
     else:
         assert False, 'Expected "element_count" or "automatic" array size.'
 
@@ -101,6 +113,18 @@ def _check_that_array_base_types_are_fixed_size(type_ir, source_file_name, error
                     source_file_name,
                     type_ir.base_type.atomic_type.source_location,
                     "Array elements must be fixed size.",
+                )
+            ]
+        )
+    elif base_type_fixed_size == 0:
+        # The number of elements of an array is its size divided by the size of
+        # one element.
+        errors.append(
+            [
+                error.error(
+                    source_file_name,
+                    type_ir.base_type.atomic_type.source_location,
+                    "Array elements must not be zero-sized.",
                 )
             ]
         )
